@@ -14,7 +14,7 @@ META = {
                    "returned and decided by the enumerated idiom (duplicate: bit & mask != 0; mismatch: the two satellite accumulators differ; unrecognised "
                    "signal: to_id == None; count: cells > 64 before the first use); satellite/signal fragments sort a copy by (satellite, signal) before "
                    "writing; decoders read the cell mask with a guarded width and rebuild ids in ascending order, cells row-major."
-                   "(B-sem) the bit-exact reading of put / parse these clauses stand on (field bits MSB first at the cursor, nothing else touched) is the abstract interpretation of C07, imported and decided here too.",
+                   "(B-sem) the bit-exact reading of put / parse these clauses stand on (field bits MSB first at the cursor, nothing else touched) is the abstract interpretation of C07, imported and decided here too. Completeness: every row that is not refused updates its mask and is pushed onto the cell list (M-all), every row of a fragment write / read loop is written / read (S-sort, S-read), nothing but the sort changes the sorted clone and nothing but set_len / iter_mut / push changes a decoded list (looprules.py). The identifier map is injective with to_sig as inverse and rows are ordered by identifier for recognised signals (Y-tab / Y-ord imported from C18).",
     "assumptions": ["permutation invariance is decided as 'a sort with the right key dominates the writes'"],
 }
 
